@@ -32,6 +32,15 @@ macro_rules! window {
                 while i < $n { if i >= q { let lo = self.0[i - q] << rb; let hi = if rb == 0 || i - q == 0 { 0 } else { self.0[i - q - 1] >> (64 - rb) }; r[i] = lo | hi; } i += 1; }
                 Self(r)
             }
+            /// multiply a non-negative value by a small constant
+            pub fn mul_small(self, k: u64) -> Self {
+                if k == 1 { return self; }
+                if k == 2 { return self.shl(1); }
+                if k == 3 * (1u64 << 53) + 13 { return self.shl(54).add(self.shl(53)).add(self.shl(3)).add(self.shl(2)).add(self); }
+                let mut acc = Self::zero(); let mut kk = k; let mut i = 0u32;
+                while kk != 0 { if kk & 1 != 0 { acc = acc.add(self.shl(i)); } kk >>= 1; i += 1; }
+                acc
+            }
             /// non-negative self < 2^k
             pub fn lt_pow2(self, k: u32) -> bool {
                 let q = (k / 64) as usize; let rb = k % 64;
@@ -52,3 +61,4 @@ macro_rules! window {
 }
 window!(W, 4);
 window!(X, 6);
+window!(Y, 8);
